@@ -796,6 +796,20 @@ def judge_run(part, v, vname, force, tpls, results, storm):
         part["inconclusive"].append("crash storm in %s (force %s): run cut short" % (vname, FORCE_NAMES[force]))
 
 
+def compact(part, keep=25):
+    """per key keep the smallest witnesses first and at most `keep` of them (a broken transform
+    fails tens of thousands of cases; counts in the report are then lower bounds)"""
+    by = {}
+    for k, w in part["violations"]:
+        by.setdefault(k, []).append(w)
+    out = []
+    for k, ws in by.items():
+        ws.sort(key=lambda w: (w["case"].get("n", 0) + w["case"].get("kl", 0), len(w["case"].get("chunks", ()))))
+        out.extend((k, w) for w in ws[:keep])
+    part["violations"] = out
+    return part
+
+
 def worker(job):
     """job: kind, alg, params, tier, seed, variants{vname -> v}"""
     part = common.new_part()
@@ -829,7 +843,7 @@ def worker(job):
     for t in tpls:      # free memory early in long jobs
         t.pop("payload", None)
     part["counters"]["templates"] = len(tpls)
-    return part
+    return compact(part)
 
 
 RULE = (
